@@ -15,16 +15,24 @@
 //          the last word has the high bit, headers seen further down are the
 //          earlier header with words put in front, and the reply passes a tap
 //          with the very header the request left it with.
+//          Topology changes (second audit): a "ghost" raw requester sends one
+//          request and is gone before the held-back reply is produced - the
+//          reply must die at its attach point, reach no other pipe and leave
+//          every forwarder alive; between the phases one link is closed
+//          (nng_pipe_close) and redialled; raw REQ requesters in burst mode
+//          keep all requests of a phase outstanding at once.
 //   loop   1-3 devices and a tap wired into a ring (xreq/xrep, xsurveyor/
 //          xrespondent, raw pair1 in both directions): one injected message
 //          passes the tap exactly as often as the MAXTTLs of the ring allow;
 //          raw bus: reflector devices in a line and a two-socket forwarder
 //          (bus has no MAXTTL, only the do-not-return-to-sender rule): every
 //          other node gets exactly one copy.  Afterwards the process is idle
-//          (CPU time over 150 ms windows).
+//          (CPU time over 150 ms windows).  Device-only cycles with a counter
+//          hanging off one back socket, several messages in flight and an
+//          optional doubled link (survey fan-out inside the cycle): pure_case.
 //   raw    a raw TCP peer (SP handshake as REQ/SURVEYOR) sends backtraces of
 //          0..20 words, with/without terminator, high-bit patterns, payloads
-//          that end mid-word, to a cooked REP/RESPONDENT or to a device in
+//          that end mid-word, to a cooked REP/RESPONDENT or to 1-3 devices in
 //          front of a replier; delivered iff the first high-bit word is within
 //          MAXTTL of every socket on the path (then header/body/reply are
 //          exact), otherwise nothing is delivered and a well-formed request on
@@ -76,8 +84,9 @@ static const family fams[2] = {
 
 // ------------------------------------------------------------ pipe counters
 typedef struct {
-	_Atomic int n;
-	_Atomic int adds, rems;
+	_Atomic int      n;
+	_Atomic int      adds, rems;
+	_Atomic uint32_t last; // id of the pipe added last
 } pcount;
 #define PC_POOL 8192
 static pcount pc_pool[PC_POOL];
@@ -93,6 +102,7 @@ pc_get(void)
 	atomic_store(&p->n, 0);
 	atomic_store(&p->adds, 0);
 	atomic_store(&p->rems, 0);
+	atomic_store(&p->last, 0);
 	return p;
 }
 
@@ -100,8 +110,8 @@ static void
 pipe_cb(nng_pipe p, nng_pipe_ev ev, void *arg)
 {
 	pcount *pc = arg;
-	(void) p;
 	if (ev == NNG_PIPE_EV_ADD_POST) {
+		atomic_store(&pc->last, (uint32_t) nng_pipe_id(p));
 		atomic_fetch_add(&pc->n, 1);
 		atomic_fetch_add(&pc->adds, 1);
 	} else if (ev == NNG_PIPE_EV_REM_POST) {
@@ -123,6 +133,11 @@ pc_wait(pcount *pc, int n, const char *what)
 }
 
 static int cases_since_init;
+
+// Every lost reply costs LONG_MS.  Once a worker has reported two of them
+// the verdict is settled: the rest of its cases is skipped (counted in
+// cases_skipped_after_repeated_reply_loss) instead of waiting for minutes.
+static _Atomic int reply_lost_reports;
 
 static void
 lib_cycle(bool force)
@@ -292,6 +307,12 @@ typedef struct {
 	arrival        *log;
 	int             n, cap;
 	_Atomic bool    mute; // receive but do not answer
+	// "ghost" requests (tag == ghost_tag) are answered only after the
+	// requester has gone away: the thread keeps the request until released
+	bool            ghost_on;
+	uint32_t        ghost_tag;
+	_Atomic int     nheld;
+	_Atomic bool    release;
 } replier;
 
 static void *
@@ -327,6 +348,16 @@ replier_main(void *arg)
 			nng_msg_free(m);
 			continue;
 		}
+		if (rp->ghost_on) {
+			uint32_t tg = 0;
+			uint64_t sq = 0;
+			if (vf_body_check(nng_msg_body(m), nng_msg_len(m), &tg, &sq) == 0 && tg == rp->ghost_tag) {
+				atomic_fetch_add(&rp->nheld, 1);
+				while (!atomic_load(&rp->release)) {
+					vf_usleep(200);
+				}
+			}
+		}
 		if ((rv = nng_sendmsg(rp->s, m, 0)) != 0) {
 			nng_msg_free(m);
 			if (rv == NNG_ECLOSED) {
@@ -338,13 +369,21 @@ replier_main(void *arg)
 }
 
 static void
-replier_start(replier *rp, nng_socket s, bool raw)
+replier_start_ghost(replier *rp, nng_socket s, bool raw, bool ghost_on, uint32_t ghost_tag)
 {
 	memset(rp, 0, sizeof(*rp));
-	rp->s   = s;
-	rp->raw = raw;
+	rp->s         = s;
+	rp->raw       = raw;
+	rp->ghost_on  = ghost_on;
+	rp->ghost_tag = ghost_tag;
 	pthread_mutex_init(&rp->mtx, NULL);
 	pthread_create(&rp->th, NULL, replier_main, rp);
+}
+
+static void
+replier_start(replier *rp, nng_socket s, bool raw)
+{
+	replier_start_ghost(rp, s, raw, false, 0);
 }
 
 static int
@@ -373,6 +412,7 @@ replier_wait(replier *rp, int n, int ms)
 static void
 replier_stop(replier *rp)
 {
+	atomic_store(&rp->release, true);
 	nng_socket_close(rp->s);
 	pthread_join(rp->th, NULL);
 }
@@ -468,6 +508,7 @@ typedef struct {
 	bool       got[2][8]; // reply verified
 	uint8_t    shdr[2][8][12];
 	uint64_t   key;
+	bool       burst; // raw REQ: all requests of a phase are sent before any reply is read
 } requester;
 
 struct chain {
@@ -476,7 +517,22 @@ struct chain {
 	hop           h[MAXHOPS + 2]; // 1..k
 	int           ttl[2][MAXHOPS + 2]; // [phase][1..k+1]
 	int           ttl_back[MAXHOPS + 2];
-	requester     rq[MAXREQ];
+	requester     rq[MAXREQ + 1]; // rq[nreq] is the ghost
+	int           ntags; // nreq (+1 with a ghost)
+	// ghost: a raw requester that sends one request and is gone before the
+	// (held back) reply is produced; a bystander socket on the same front
+	// socket only listens.  The reply must die at the ghost's attach point.
+	bool          ghost;
+	int           ghost_ph;
+	pthread_t     ghost_th;
+	bool          ghost_sent, ghost_held, ghost_ran;
+	int           ghost_dropped; // replies verified to have reached nobody
+	nng_socket    bystander;
+	pcount       *pc_by;
+	// link flap between the phases: the pipe into socket flap_link on the
+	// path of requester flap_req is closed and redialled
+	int           flap_link, flap_req;
+	_Atomic bool  lost; // a reply was lost: reported, end the case quickly
 	int           nrep; // repliers behind the last back socket (fan-out)
 	replier       rp[MAXREP];
 	bool          rep_raw;
@@ -578,7 +634,7 @@ tap_out_main(void *arg)
 		size_t         hl = nng_msg_header_len(m);
 		uint32_t       tag = 0;
 		uint64_t       seq = 0;
-		if (vf_body_check(nng_msg_body(m), nng_msg_len(m), &tag, &seq) != 0 || tag >= (uint32_t) c->nreq) {
+		if (vf_body_check(nng_msg_body(m), nng_msg_len(m), &tag, &seq) != 0 || tag >= (uint32_t) c->ntags) {
 			vf_violation("C13/body-changed", "%s: tap at hop %d received a request whose body is not one that was sent (len %zu)", c->ctx, t->pos, nng_msg_len(m));
 		} else {
 			int want = words_at(t->pos, c->rq[tag].at, c->rq[tag].b0) + 1;
@@ -638,7 +694,7 @@ tap_back_main(void *arg)
 		size_t         hl = nng_msg_header_len(m);
 		uint32_t       tag = 0;
 		uint64_t       seq = 0;
-		if (vf_body_check(nng_msg_body(m), nng_msg_len(m), &tag, &seq) != 0 || tag >= (uint32_t) c->nreq) {
+		if (vf_body_check(nng_msg_body(m), nng_msg_len(m), &tag, &seq) != 0 || tag >= (uint32_t) c->ntags) {
 			vf_violation("C13/body-changed", "%s: tap at hop %d received a reply whose body is not one that was sent (len %zu)", c->ctx, t->pos, nng_msg_len(m));
 		} else {
 			pthread_mutex_lock(&t->mtx);
@@ -681,6 +737,79 @@ req_seq(int phase, int i)
 	return ((uint64_t) (phase + 1) << 32) | (uint64_t) i;
 }
 
+// Builds request i of the phase (body, raw: backtrace as sent).
+static nng_msg *
+req_build(requester *q, int ph, int i)
+{
+	nng_msg *m;
+	size_t   sz = req_size(q, ph, i);
+	if (nng_msg_alloc(&m, sz) != 0) {
+		vf_harness_fail("msg alloc");
+	}
+	vf_body_make(nng_msg_body(m), sz, (uint32_t) q->id, req_seq(ph, i));
+	if (q->raw) {
+		for (int w = 0; w < q->b0; w++) {
+			nng_msg_header_append_u32(m, q->pre[w]);
+		}
+		nng_msg_header_append_u32(m, 0x80000000u | (uint32_t) vf_mix64(q->key + (uint64_t) i * 31 + (uint64_t) ph));
+		memcpy(q->shdr[ph][i], nng_msg_header(m), nng_msg_header_len(m));
+	}
+	return m;
+}
+
+// Judges one answer.  expect >= 0: it must be the answer to request
+// 'expect' of this phase; -1: to any request sent in this phase.  Returns
+// the index of the request it is the exact echo of, -1 after a violation.
+static int
+answer_check(requester *q, int ph, int expect, nng_msg *r)
+{
+	chain   *c   = q->c;
+	uint32_t tag = 0;
+	uint64_t rs  = 0;
+	if (vf_body_check(nng_msg_body(r), nng_msg_len(r), &tag, &rs) != 0) {
+		vf_violation("C13/body-changed", "%s: requester %d received a reply of %zu bytes that is not a body it sent", c->ctx, q->id, nng_msg_len(r));
+		return -1;
+	}
+	if (tag != (uint32_t) q->id) {
+		vf_violation("C13/reply-misrouted", "%s: requester %d received the reply that belongs to requester %u%s", c->ctx, q->id, tag, c->ghost && tag == (uint32_t) c->nreq ? " (a requester that has gone away)" : "");
+		return -1;
+	}
+	int i = (int) (rs & 0xffffffffu);
+	if ((rs >> 32) != (uint64_t) (ph + 1) || i >= q->sent[ph] || (expect >= 0 && i != expect)) {
+		vf_violation("C13/reply-mismatch", "%s: requester %d asked seq %llx and received the reply for seq %llx", c->ctx, q->id, (unsigned long long) req_seq(ph, expect >= 0 ? expect : 0), (unsigned long long) rs);
+		return -1;
+	}
+	size_t   sz   = req_size(q, ph, i);
+	uint8_t *want = malloc(sz);
+	bool     same;
+	vf_body_make(want, sz, (uint32_t) q->id, req_seq(ph, i));
+	same = nng_msg_len(r) == sz && memcmp(nng_msg_body(r), want, sz) == 0;
+	free(want);
+	if (!same) {
+		vf_violation("C13/body-changed", "%s: requester %d received a reply of %zu bytes that is not the %zu-byte body it sent", c->ctx, q->id, nng_msg_len(r), sz);
+		return -1;
+	}
+	if (q->raw) {
+		size_t hl = (size_t) (q->b0 + 1) * 4;
+		if (nng_msg_header_len(r) != hl || memcmp(nng_msg_header(r), q->shdr[ph][i], hl) != 0) {
+			vf_violation("C13/backtrace-unwind", "%s: raw requester %d receives its reply with a %zu-byte header, sent %zu bytes (backtrace not unwound exactly)", c->ctx, q->id, nng_msg_header_len(r), hl);
+			return -1;
+		}
+	}
+	vf_stat("replies_verified", 1);
+	return i;
+}
+
+static void
+reply_lost(requester *q, int ph, int i, int ans, int nans, int rv)
+{
+	chain *c = q->c;
+	vf_violation("C13/reply-lost", "%s: requester %d (b0=%d, attached at %d%s) phase %d msg %d: answer %d of %d did not arrive within %d ms (%s) although every socket on the path has MAXTTL >= the words it sees", c->ctx, q->id, q->b0, q->at, q->burst ? ", burst" : "", ph, i, ans + 1, nans, LONG_MS, nng_strerror(rv));
+	// reported; do not spend another LONG_MS per remaining request
+	atomic_store(&c->lost, true);
+	atomic_fetch_add(&reply_lost_reports, 1);
+}
+
 static void *
 requester_main(void *arg)
 {
@@ -696,23 +825,42 @@ requester_main(void *arg)
 	if (!q->raw && c->fam == 1) {
 		nng_socket_set_ms(q->s, NNG_OPT_SURVEYOR_SURVEYTIME, wait_ms);
 	}
-	for (int i = 0; i < n; i++) {
-		uint64_t seq = req_seq(ph, i);
-		size_t   sz  = req_size(q, ph, i);
-		nng_msg *m, *r = NULL;
-		int      rv;
-		uint8_t *want;
-		if (nng_msg_alloc(&m, sz) != 0) {
-			vf_harness_fail("msg alloc");
-		}
-		vf_body_make(nng_msg_body(m), sz, (uint32_t) q->id, seq);
-		if (q->raw) {
-			for (int w = 0; w < q->b0; w++) {
-				nng_msg_header_append_u32(m, q->pre[w]);
+	if (q->burst && d == 0) {
+		// several requests outstanding on one raw REQ socket; the answers
+		// may overtake each other (fan-out): matched by their body
+		int rv, nrx = 0;
+		for (int i = 0; i < n; i++) {
+			nng_msg *m = req_build(q, ph, i);
+			if ((rv = nng_sendmsg(q->s, m, 0)) != 0) {
+				nng_msg_free(m);
+				vf_violation("C13/request-send-failed", "%s: requester %d could not send: %s", c->ctx, q->id, nng_strerror(rv));
+				break;
 			}
-			nng_msg_header_append_u32(m, 0x80000000u | (uint32_t) vf_mix64(q->key + (uint64_t) i * 31 + (uint64_t) ph));
-			memcpy(q->shdr[ph][i], nng_msg_header(m), nng_msg_header_len(m));
+			q->sent[ph] = i + 1;
 		}
+		while (nrx < q->sent[ph]) {
+			nng_msg *r = NULL;
+			if ((rv = nng_recvmsg(q->s, &r, 0)) != 0) {
+				reply_lost(q, ph, nrx, 0, 1, rv);
+				break;
+			}
+			int i = answer_check(q, ph, -1, r);
+			if (i >= 0 && q->got[ph][i]) {
+				vf_violation("C13/extra-reply", "%s: raw requester %d received the reply to its request %d twice", c->ctx, q->id, i);
+			} else if (i >= 0) {
+				q->got[ph][i] = true;
+				if (i != nrx) {
+					vf_stat("burst_replies_out_of_order", 1);
+				}
+			}
+			nng_msg_free(r);
+			nrx++;
+		}
+		n = 0; // nothing left for the one-at-a-time loop
+	}
+	for (int i = 0; i < n && !atomic_load(&c->lost); i++) {
+		nng_msg *m = req_build(q, ph, i), *r = NULL;
+		int      rv;
 		if (d == 0) {
 			gate_enter(c);
 		}
@@ -741,34 +889,10 @@ requester_main(void *arg)
 				rv = nng_recvmsg(q->s, &r, 0);
 			}
 			if (rv != 0) {
-				vf_violation("C13/reply-lost", "%s: requester %d (b0=%d, attached at %d) phase %d msg %d: answer %d of %d did not arrive within %d ms (%s) although every socket on the path has MAXTTL >= the words it sees", c->ctx, q->id, q->b0, q->at, ph, i, ans + 1, nans, LONG_MS, nng_strerror(rv));
+				reply_lost(q, ph, i, ans, nans, rv);
 				break;
 			}
-			uint32_t tag = 0;
-			uint64_t rs  = 0;
-			want         = malloc(sz);
-			vf_body_make(want, sz, (uint32_t) q->id, seq);
-			if (nng_msg_len(r) == sz && memcmp(nng_msg_body(r), want, sz) == 0) {
-				bool ok = true;
-				if (q->raw) {
-					size_t hl = (size_t) (q->b0 + 1) * 4;
-					if (nng_msg_header_len(r) != hl || memcmp(nng_msg_header(r), q->shdr[ph][i], hl) != 0) {
-						vf_violation("C13/backtrace-unwind", "%s: raw requester %d receives its reply with a %zu-byte header, sent %zu bytes (backtrace not unwound exactly)", c->ctx, q->id, nng_msg_header_len(r), hl);
-						ok = false;
-					}
-				}
-				if (ok) {
-					nok++;
-					vf_stat("replies_verified", 1);
-				}
-			} else if (vf_body_check(nng_msg_body(r), nng_msg_len(r), &tag, &rs) == 0 && tag != (uint32_t) q->id) {
-				vf_violation("C13/reply-misrouted", "%s: requester %d received the reply that belongs to requester %u", c->ctx, q->id, tag);
-			} else if (vf_body_check(nng_msg_body(r), nng_msg_len(r), &tag, &rs) == 0) {
-				vf_violation("C13/reply-mismatch", "%s: requester %d asked seq %llx and received the reply for seq %llx", c->ctx, q->id, (unsigned long long) seq, (unsigned long long) rs);
-			} else {
-				vf_violation("C13/body-changed", "%s: requester %d received a reply of %zu bytes that is not the %zu-byte body it sent", c->ctx, q->id, nng_msg_len(r), sz);
-			}
-			free(want);
+			nok += answer_check(q, ph, i, r) == i;
 			nng_msg_free(r);
 			r = NULL;
 		}
@@ -778,7 +902,7 @@ requester_main(void *arg)
 			vf_stat("surveys_answered_by_all_respondents", 1);
 		}
 	}
-	if (q->raw) {
+	if (q->raw && !atomic_load(&c->lost)) {
 		// a raw requester sees everything that is routed to it
 		nng_msg *r = NULL;
 		nng_socket_set_ms(q->s, NNG_OPT_RECVTIMEO, 30);
@@ -786,9 +910,58 @@ requester_main(void *arg)
 			uint32_t tag = 0xffffffffu;
 			uint64_t rs  = 0;
 			vf_body_check(nng_msg_body(r), nng_msg_len(r), &tag, &rs);
-			vf_violation("C13/extra-reply", "%s: raw requester %d received an additional message (tag %u seq %llx) after all its requests were settled", c->ctx, q->id, tag, (unsigned long long) rs);
+			vf_violation("C13/extra-reply", "%s: raw requester %d received an additional message (tag %u seq %llx%s) after all its requests were settled", c->ctx, q->id, tag, (unsigned long long) rs, c->ghost && tag == (uint32_t) c->nreq ? ": the reply to a requester that has gone away" : "");
 			nng_msg_free(r);
 		}
+	}
+	return NULL;
+}
+
+// The ghost: one request, then the socket is closed; only when its pipe has
+// been removed from the forwarder's front socket the repliers answer.
+static void *
+ghost_main(void *arg)
+{
+	chain     *c = arg;
+	requester *g = &c->rq[c->nreq];
+	int        nans = c->fam == 1 ? c->nrep : 1;
+	int        ph = c->ghost_ph, rv;
+	pcount    *pcf = c->h[g->at].pc_front;
+	int        rems0 = atomic_load(&pcf->rems);
+	nng_msg   *m = req_build(g, ph, 0);
+
+	if ((rv = nng_sendmsg(g->s, m, 0)) != 0) {
+		nng_msg_free(m);
+		vf_violation("C13/request-send-failed", "%s: the ghost requester could not send: %s", c->ctx, nng_strerror(rv));
+	} else {
+		g->sent[ph]   = 1;
+		c->ghost_sent = true;
+		uint64_t end  = vf_now_ns() + (uint64_t) LONG_MS * 1000000ULL;
+		for (;;) {
+			int held = 0;
+			for (int x = 0; x < c->nrep; x++) {
+				held += atomic_load(&c->rp[x].nheld);
+			}
+			if (held >= nans) {
+				c->ghost_held = true;
+				break;
+			}
+			if (vf_now_ns() > end) {
+				vf_violation("C13/within-ttl-dropped", "%s: the request of a raw requester attached at forwarder %d reached %d of %d repliers within %d ms although every MAXTTL on its path allows it", c->ctx, g->at, held, nans, LONG_MS);
+				break;
+			}
+			vf_usleep(300);
+		}
+	}
+	nng_socket_close(g->s);
+	for (int i = 0; atomic_load(&pcf->rems) <= rems0; i++) {
+		if (i > 10000) {
+			vf_harness_fail("ghost: its pipe was not removed from the front socket within 10 s");
+		}
+		vf_msleep(1);
+	}
+	for (int x = 0; x < c->nrep; x++) {
+		atomic_store(&c->rp[x].release, true);
 	}
 	return NULL;
 }
@@ -842,12 +1015,99 @@ chain_gen_ttl(chain *c, vf_rng *r, int scen)
 	}
 }
 
+// After the ghost's phase and quiescence: its (late) replies must have
+// reached nobody.  The raw requesters judge their own sockets (extra-reply,
+// reply-misrouted), taps before the attach point complain in tap_back_main;
+// the bystander shares the front socket with the ghost's dead pipe.
+static void
+ghost_judge(chain *c)
+{
+	requester *g    = &c->rq[c->nreq];
+	int        nans = c->fam == 1 ? c->nrep : 1;
+	nng_msg   *m    = NULL;
+	nng_socket_set_ms(c->bystander, NNG_OPT_RECVTIMEO, 30);
+	if (nng_recvmsg(c->bystander, &m, 0) == 0) {
+		uint32_t tag = 0xffffffffu;
+		uint64_t sq  = 0;
+		vf_body_check(nng_msg_body(m), nng_msg_len(m), &tag, &sq);
+		vf_violation("C13/reply-misrouted", "%s: a socket that never sent anything, attached to forwarder %d, received a message (tag %u, %zu header bytes)%s", c->ctx, g->at, tag, nng_msg_header_len(m), tag == (uint32_t) c->nreq ? ": the reply to a requester whose pipe on that forwarder is gone was sent over another pipe" : "");
+		nng_msg_free(m);
+		return;
+	}
+	// the raw requesters may have finished before the replies were released
+	for (int i = 0; i < c->nreq; i++) {
+		requester *q = &c->rq[i];
+		if (!q->raw) {
+			continue;
+		}
+		nng_socket_set_ms(q->s, NNG_OPT_RECVTIMEO, 5);
+		if (nng_recvmsg(q->s, &m, 0) == 0) {
+			uint32_t tag = 0xffffffffu;
+			uint64_t sq  = 0;
+			vf_body_check(nng_msg_body(m), nng_msg_len(m), &tag, &sq);
+			vf_violation("C13/reply-misrouted", "%s: raw requester %d (attached at %d) received a message with tag %u after the phase%s", c->ctx, i, q->at, tag, tag == (uint32_t) c->nreq ? ": the reply to a requester that has gone away (attached at the same or another forwarder)" : "");
+			nng_msg_free(m);
+			return;
+		}
+	}
+	if (!c->ghost_held) {
+		return;
+	}
+	// evidence that the replies really travelled back to the attach point
+	int seen = -1;
+	for (int j = g->at; j <= c->k; j++) {
+		if (c->h[j].is_tap) {
+			tap *t = c->h[j].tp;
+			pthread_mutex_lock(&t->mtx);
+			obsrec *o = obs_find(t, (uint32_t) c->nreq, req_seq(c->ghost_ph, 0));
+			seen = o ? o->back_seen : 0;
+			pthread_mutex_unlock(&t->mtx);
+			break; // the tap nearest to the attach point
+		}
+	}
+	if (seen >= 0 && seen != nans) {
+		// lost before it reached the place where it has to die: says
+		// nothing about this oracle
+		vf_stat("ghost_replies_not_seen_returning", 1);
+		return;
+	}
+	if (seen >= 0) {
+		vf_stat("ghost_replies_seen_returning_at_tap", nans);
+	}
+	c->ghost_dropped = nans;
+}
+
+// Close the pipe into socket flap_link on the path of requester flap_req
+// (between the phases, nothing in flight) and wait until the dialer is back.
+static void
+chain_flap(chain *c)
+{
+	requester *q  = &c->rq[c->flap_req];
+	int        j  = c->flap_link;
+	pcount    *up = j == q->at ? q->pc : c->h[j - 1].pc_back;
+	int        a0 = atomic_load(&up->adds), r0 = atomic_load(&up->rems), n0 = atomic_load(&up->n);
+	nng_pipe   p  = NNG_PIPE_INITIALIZER;
+	int        rv;
+	p.id = atomic_load(&up->last);
+	if ((rv = nng_pipe_close(p)) != 0) {
+		vf_harness_fail("flap: nng_pipe_close(%u): %s", p.id, nng_strerror(rv));
+	}
+	for (int i = 0; atomic_load(&up->rems) <= r0 || atomic_load(&up->adds) <= a0 || atomic_load(&up->n) < n0; i++) {
+		if (i > 10000) {
+			vf_harness_fail("flap: link into socket %d did not come back within 10 s (%d added, %d removed)", j, atomic_load(&up->adds) - a0, atomic_load(&up->rems) - r0);
+		}
+		vf_msleep(1);
+	}
+	vf_stat("link_flaps", 1);
+}
+
 static void
 chain_case(long idx)
 {
 	vf_rng r;
 	chain *c = calloc(1, sizeof(*c));
 	int    pert, scen, ntaps;
+	long   viol0 = vf_violations();
 	char   durl[MAXHOPS + 3][128];
 
 	vf_rng_seed(&r, vf_seed, (uint64_t) idx);
@@ -908,12 +1168,68 @@ chain_case(long idx)
 			c->rq[i].b0  = 0;
 		}
 	}
+	if (c->resend && c->k >= 1) {
+		// the backtrace of a re-sent copy is only visible at a tap
+		bool any = false;
+		for (int j = 1; j <= c->k; j++) {
+			any |= c->h[j].is_tap;
+		}
+		if (!any) {
+			c->h[vf_range(&r, 1, (uint32_t) c->k)].is_tap = true;
+			ntaps = 1;
+		}
+	}
+	// burst: a raw REQ requester with all requests of a phase outstanding
+	// at once (reqrep only: 64-deep reply queues, see gate comment)
+	for (int i = 0; i < c->nreq; i++) {
+		c->rq[i].burst = c->fam == 0 && c->rq[i].raw && vf_chance(&r, 1, 2);
+	}
+	// ghost requester: attach point and phase where its request is delivered
+	c->ntags = c->nreq;
+	if (c->k >= 1 && !c->resend && vf_chance(&r, 1, 2)) {
+		requester *g = &c->rq[c->nreq];
+		int at0 = (int) vf_range(&r, 1, (uint32_t) c->k), ph0 = (int) vf_below(&r, (uint32_t) c->nphase);
+		g->c   = c;
+		g->id  = c->nreq;
+		g->raw = true;
+		g->key = vf_rand(&r);
+		for (int t = 0; t < c->k * c->nphase && !c->ghost; t++) {
+			int at = (at0 - 1 + t / c->nphase) % c->k + 1, ph = (ph0 + t) % c->nphase;
+			if (drop_at(c, ph, 0, at) == 0) {
+				c->ghost    = true;
+				c->ghost_ph = ph;
+				g->at       = at;
+			}
+		}
+		if (c->ghost) {
+			c->ntags = c->nreq + 1;
+		} else {
+			vf_stat("ghost_skipped_no_deliverable_path", 1);
+		}
+	}
+	// link flap between the two phases
+	if (c->nphase == 2) {
+		// preferably on the path of a requester that gets through in phase 2
+		int cand[MAXREQ], nc = 0;
+		for (int i = 0; i < c->nreq; i++) {
+			if (drop_at(c, 1, c->rq[i].b0, c->rq[i].at) == 0) {
+				cand[nc++] = i;
+			}
+		}
+		c->flap_req  = nc > 0 ? cand[vf_below(&r, (uint32_t) nc)] : (int) vf_below(&r, (uint32_t) c->nreq);
+		c->flap_link = (int) vf_range(&r, (uint32_t) c->rq[c->flap_req].at, (uint32_t) c->k + 1);
+	}
+	// MAXTTL of the forwarders' REQ-side sockets (the library never consults
+	// it): generous, or - the natural way to configure a device - the same
+	// value as on the front socket; a reply to a request that this very
+	// device admitted must pass under any reading of the property.
+	bool natural_back = vf_chance(&r, 1, 2);
 	pthread_mutex_init(&c->gate_mtx, NULL);
 	pthread_cond_init(&c->gate_cv, NULL);
 	// survey: 2 responses per pipe queue at most (see gate comment)
 	c->gate_free = c->fam == 1 ? (c->nrep > 1 ? 1 : 2) : MAXREQ;
 	snprintf(c->ctx, sizeof(c->ctx), "%s k=%d", c->f->name, c->k);
-	vf_case_begin(idx, "chain fam=%s k=%d nreq=%d at=%d,%d,%d,%d nrep=%d resend=%d taps=%d scen=%d phases=%d rawrep=%d", c->f->name, c->k, c->nreq, c->rq[0].at, c->rq[1].at, c->rq[2].at, c->rq[3].at, c->nrep, c->resend, ntaps, scen, c->nphase, c->rep_raw);
+	vf_case_begin(idx, "chain fam=%s k=%d nreq=%d at=%d,%d,%d,%d nrep=%d resend=%d taps=%d scen=%d phases=%d rawrep=%d ghost=%d@%d/ph%d flap=%d backttl=%s", c->f->name, c->k, c->nreq, c->rq[0].at, c->rq[1].at, c->rq[2].at, c->rq[3].at, c->nrep, c->resend, ntaps, scen, c->nphase, c->rep_raw, c->ghost, c->rq[c->nreq].at, c->ghost_ph, c->flap_link, natural_back ? "front" : "generous");
 	vf_watchdog(180);
 	set_pert(&r, &pert);
 
@@ -921,8 +1237,10 @@ chain_case(long idx)
 	// devices start (a device owns its sockets: NNG_EBUSY afterwards)
 	for (int j = 1; j <= c->k; j++) {
 		hop *h = &c->h[j];
-		// the REQ side does not check MAXTTL; keep it >= what flows back
 		c->ttl_back[j] = (int) vf_range(&r, c->k + 3 > 15 ? 15 : (uint32_t) c->k + 3, 15);
+		if (natural_back) {
+			c->ttl_back[j] = c->ttl[0][j];
+		}
 		h->front = sk_open(c->f->rep_raw, c->ttl[0][j], &h->pc_front);
 		h->back  = sk_open(c->f->req_raw, c->ttl_back[j], &h->pc_back);
 		h->tran  = pick_tran(&r);
@@ -952,12 +1270,22 @@ chain_case(long idx)
 		}
 		sk_dial(q->s, durl[q->at]);
 	}
+	if (c->ghost) {
+		requester *g = &c->rq[c->nreq];
+		g->s         = sk_open(c->f->req_raw, 15, &g->pc);
+		c->bystander = sk_open(c->f->req_raw, 15, &c->pc_by);
+		sk_dial(g->s, durl[g->at]);
+		sk_dial(c->bystander, durl[g->at]);
+	}
 	for (int j = 1; j <= c->k; j++) {
 		char what[64];
 		snprintf(what, sizeof(what), "forwarder %d front (%s)", j, vf_tran_names[c->h[j].tran]);
 		int nin = j > 1 ? 1 : 0;
 		for (int i = 0; i < c->nreq; i++) {
 			nin += c->rq[i].at == j;
+		}
+		if (c->ghost && c->rq[c->nreq].at == j) {
+			nin += 2;
 		}
 		pc_wait(c->h[j].pc_front, nin, what);
 		snprintf(what, sizeof(what), "forwarder %d back (next link %s)", j, vf_tran_names[j < c->k ? c->h[j + 1].tran : c->tran_rep]);
@@ -969,8 +1297,12 @@ chain_case(long idx)
 	for (int i = 0; i < c->nreq; i++) {
 		pc_wait(c->rq[i].pc, 1, "requester");
 	}
+	if (c->ghost) {
+		pc_wait(c->rq[c->nreq].pc, 1, "ghost requester");
+		pc_wait(c->pc_by, 1, "bystander");
+	}
 	for (int x = 0; x < c->nrep; x++) {
-		replier_start(&c->rp[x], reps[x], c->rep_raw);
+		replier_start_ghost(&c->rp[x], reps[x], c->rep_raw, c->ghost, (uint32_t) c->nreq);
 	}
 	for (int j = c->k; j >= 1; j--) {
 		hop *h = &c->h[j];
@@ -996,6 +1328,9 @@ chain_case(long idx)
 
 	// ---- traffic
 	for (int ph = 0; ph < c->nphase; ph++) {
+		if (ph == 1 && c->flap_link != 0) {
+			chain_flap(c);
+		}
 		for (int j = 1; j <= c->k; j++) {
 			if (c->h[j].is_tap && nng_socket_set_int(c->h[j].front, NNG_OPT_MAXTTL, c->ttl[ph][j]) != 0) {
 				vf_harness_fail("set ttl on tap");
@@ -1007,9 +1342,19 @@ chain_case(long idx)
 			}
 			atomic_store(&c->rp[x].mute, c->resend);
 		}
+		bool ghost_now = c->ghost && c->ghost_ph == ph;
+		if (ghost_now && c->fam == 1) {
+			// survey: alone (responses share 2-deep queues, see gate comment)
+			pthread_create(&c->ghost_th, NULL, ghost_main, c);
+			pthread_join(c->ghost_th, NULL);
+			vf_quiesce(2, 3000);
+		}
 		for (int i = 0; i < c->nreq; i++) {
 			c->rq[i].phase = ph;
 			pthread_create(&c->rq[i].th, NULL, requester_main, &c->rq[i]);
+		}
+		if (ghost_now && c->fam == 0) {
+			pthread_create(&c->ghost_th, NULL, ghost_main, c);
 		}
 		if (c->resend) {
 			vf_msleep(120);
@@ -1020,11 +1365,27 @@ chain_case(long idx)
 		for (int i = 0; i < c->nreq; i++) {
 			pthread_join(c->rq[i].th, NULL);
 		}
+		if (ghost_now && c->fam == 0) {
+			pthread_join(c->ghost_th, NULL);
+		}
 		vf_quiesce(2, 3000);
+		if (ghost_now) {
+			c->ghost_ran = true;
+			ghost_judge(c);
+		}
+		if (atomic_load(&c->lost)) {
+			break; // reported; the remaining phase would only wait again
+		}
 	}
 
 	// ---- teardown (random order: ends first or devices first)
 	bool ends_first = vf_chance(&r, 1, 2);
+	if (c->ghost) {
+		if (!c->ghost_ran) {
+			nng_socket_close(c->rq[c->nreq].s);
+		}
+		nng_socket_close(c->bystander);
+	}
 	if (ends_first) {
 		for (int i = 0; i < c->nreq; i++) {
 			nng_socket_close(c->rq[i].s);
@@ -1055,7 +1416,27 @@ chain_case(long idx)
 	vf_pt_off();
 
 	// ---- analysis
-	int served_mask = 0;
+	int served_mask = 0, flap_used = 0;
+	if (c->ghost && c->ghost_sent) {
+		// the ghost's request itself is an ordinary request
+		int cnt = 0, nans = c->fam == 1 ? c->nrep : 1;
+		for (int x = 0; x < c->nrep; x++) {
+			for (int a = 0; a < c->rp[x].n; a++) {
+				uint32_t tg;
+				uint64_t sq;
+				arrival *ar = &c->rp[x].log[a];
+				cnt += vf_body_check(ar->body, ar->blen, &tg, &sq) == 0 && tg == (uint32_t) c->nreq;
+			}
+		}
+		if (cnt > nans) {
+			vf_violation("C13/duplicate-delivery", "%s: the one request of the requester attached at %d was received %d times (expected %d)", c->ctx, c->rq[c->nreq].at, cnt, nans);
+		} else if (c->ghost_dropped > 0 && cnt == nans && vf_violations() == viol0) {
+			requester *g = &c->rq[c->nreq];
+			vf_stat("ghost_replies_dropped", c->ghost_dropped);
+			vf_stat(c->h[g->at].is_tap ? "ghost_replies_dropped_at_tap_socket" : "ghost_replies_dropped_at_device", c->ghost_dropped);
+			vf_class("ghost/%s/k=%d/at=%d/%s/repliers=%d/%s", c->f->name, c->k, g->at > 1 ? (g->at == c->k ? 3 : 2) : 1, c->h[g->at].is_tap ? "tap" : "device", c->nrep, c->rep_raw ? "rawrep" : "cooked");
+		}
+	}
 	for (int i = 0; i < c->nreq; i++) {
 		requester *q    = &c->rq[i];
 		int        nans = c->fam == 1 ? c->nrep : 1;
@@ -1151,6 +1532,15 @@ chain_case(long idx)
 				}
 				if (d == 0 && exact && q->got[ph][n]) {
 					vf_stat("requests_delivered_verified", 1);
+					vf_stat(c->fam == 1 ? "requests_delivered_verified_survey" : "requests_delivered_verified_reqrep", 1);
+					if (q->burst) {
+						vf_stat("burst_requests_delivered_verified", 1);
+					}
+					if (ph == 1 && c->flap_link != 0 && (c->flap_link == q->at ? i == c->flap_req : q->at < c->flap_link)) {
+						// crossed the link that was lost and redialled
+						vf_stat("requests_delivered_after_link_flap", 1);
+						flap_used++;
+					}
 					if (q->at > 1) {
 						vf_stat("fanin_requests_delivered_verified", 1);
 					}
@@ -1172,6 +1562,7 @@ chain_case(long idx)
 					}
 				} else if (d != 0 && cnt == 0) {
 					vf_stat("requests_dropped_verified", 1);
+					vf_stat(c->fam == 1 ? "requests_dropped_verified_survey" : "requests_dropped_verified_reqrep", 1);
 					if (q->at > 1) {
 						vf_stat("fanin_requests_dropped_verified", 1);
 					}
@@ -1201,6 +1592,11 @@ chain_case(long idx)
 		if (c->h[j].is_tap) {
 			vf_class("tap/%s/k=%d/pos=%d", c->f->name, c->k, j);
 		}
+	}
+	if (flap_used > 0 && vf_violations() == viol0) {
+		int j = c->flap_link;
+		vf_stat("link_flaps_survived", 1);
+		vf_class("flap/%s/k=%d/%s", c->f->name, c->k, j == c->rq[c->flap_req].at ? "requester-link" : j == c->k + 1 ? "replier-link" : "middle-link");
 	}
 	if ((idx & 15) == 0) {
 		vf_sample("{\"mode\":\"chain\",\"family\":\"%s\",\"k\":%d,\"requesters\":%d,\"attached_at\":[%d,%d,%d,%d],\"repliers\":%d,\"resend\":%d,\"taps\":%d,\"phases\":%d,\"ttl_first\":%d,\"ttl_replier\":[%d,%d],\"replier0_arrivals\":%d}", c->f->name, c->k, c->nreq, c->rq[0].at, c->rq[1].at, c->rq[2].at, c->rq[3].at, c->nrep, c->resend, ntaps, c->nphase, c->ttl[0][1], c->ttl[0][c->k + 1], c->ttl[1][c->k + 1], c->rp[0].n);
@@ -1245,6 +1641,7 @@ typedef struct {
 	uint32_t   itag;
 	uint64_t   iseq;
 	size_t     ilen;
+	uint8_t    ibody[VF_BODY_MIN + 320];
 	int        laps[2];
 	int        bad[2];
 	char       ctx[64];
@@ -1273,15 +1670,13 @@ ring_tap_main(void *arg)
 		}
 		const uint8_t *h  = nng_msg_header(m);
 		size_t         hl = nng_msg_header_len(m);
-		uint32_t       tag = 0;
-		uint64_t       seq = 0;
 		bool           fwd = true;
 		pthread_mutex_lock(&rg->mtx);
 		if (rg->fam != 2 && rt->side == 1) {
 			// nothing ever answers in the ring
 			vf_violation("C13/loop-spurious-reply", "%s: a message came out of the request side of the ring although nobody replies", rg->ctx);
 			fwd = false;
-		} else if (vf_body_check(nng_msg_body(m), nng_msg_len(m), &tag, &seq) != 0 || tag != rg->itag || seq != rg->iseq || nng_msg_len(m) != rg->ilen) {
+		} else if (nng_msg_len(m) != rg->ilen || memcmp(nng_msg_body(m), rg->ibody, rg->ilen) != 0) {
 			vf_violation("C13/body-changed", "%s: the message circulating in the ring is not the injected one (len %zu, injected %zu)", rg->ctx, nng_msg_len(m), rg->ilen);
 			rg->bad[rt->side]++;
 		} else if (rt->side != rg->dir) {
@@ -1416,11 +1811,23 @@ ring_case(long idx, vf_rng *r, int fam)
 		nng_msg *m;
 		size_t   sz = VF_BODY_MIN + vf_below(r, 300);
 		int      rv;
+		bool     tiny = vf_chance(r, 1, 4);
 
+		if (tiny) {
+			// a body that ends right after the backtrace / a few bytes
+			static const size_t tsz[] = { 0, 0, 1, 3, 4, 5, VF_BODY_MIN - 1 };
+			sz = tsz[vf_below(r, 7)];
+		}
 		pthread_mutex_lock(&rg->mtx);
 		rg->dir    = fam == 2 ? (int) vf_below(r, 2) : 0;
-		rg->ttl_tf = uniform && !vf_chance(r, 1, 4) ? T : (int) vf_range(r, 1, 15);
-		rg->ttl_tb = uniform && !vf_chance(r, 1, 4) ? T : (int) vf_range(r, 1, 15);
+		// The tap's MAXTTLs change from injection to injection, but never
+		// upwards: an earlier message that is to die at the tap's socket and
+		// is still on its way (kernel buffers are invisible to vf_quiesce)
+		// must not find a more generous limit there.
+		int ntf = uniform && !vf_chance(r, 1, 4) ? T : (int) vf_range(r, 1, 15);
+		int ntb = uniform && !vf_chance(r, 1, 4) ? T : (int) vf_range(r, 1, 15);
+		rg->ttl_tf = inj > 0 && ntf > rg->ttl_tf ? rg->ttl_tf : ntf;
+		rg->ttl_tb = inj > 0 && ntb > rg->ttl_tb ? rg->ttl_tb : ntb;
 		nng_socket_set_int(rg->tf, NNG_OPT_MAXTTL, rg->ttl_tf);
 		nng_socket_set_int(rg->tb, NNG_OPT_MAXTTL, rg->ttl_tb);
 		rg->itag    = 0x100u + (uint32_t) inj;
@@ -1430,7 +1837,15 @@ ring_case(long idx, vf_rng *r, int fam)
 		if (nng_msg_alloc(&m, sz) != 0) {
 			vf_harness_fail("alloc");
 		}
-		vf_body_make(nng_msg_body(m), sz, rg->itag, rg->iseq);
+		if (tiny) {
+			// high bit clear in every 4-byte word: never taken for a request id
+			for (size_t o = 0; o < sz; o++) {
+				((uint8_t *) nng_msg_body(m))[o] = (uint8_t) (0x11 + o + (size_t) inj);
+			}
+		} else {
+			vf_body_make(nng_msg_body(m), sz, rg->itag, rg->iseq);
+		}
+		memcpy(rg->ibody, nng_msg_body(m), sz);
 		if (fam == 2) {
 			rg->ihop = vf_chance(r, 1, 2) ? 0 : vf_below(r, 15);
 			nng_msg_header_append_u32(m, rg->ihop);
@@ -1477,6 +1892,13 @@ ring_case(long idx, vf_rng *r, int fam)
 			vf_violation("C13/loop-within-ttl-lost", "%s: injected with first-seen count %d: the message passed the tap %d times, expected %d (a device lost a message it had accepted)", rg->ctx, first, got, expect);
 		} else {
 			vf_stat("loop_injections_verified", 1);
+			vf_stat(fam == 2 ? "loop_injections_verified_pair1" : fam == 1 ? "loop_injections_verified_survey" : "loop_injections_verified_reqrep", 1);
+			if (tiny && got > 0) {
+				vf_stat("loop_tiny_body_laps_verified", got);
+				if (sz == 0) {
+					vf_stat("loop_empty_body_laps_verified", got);
+				}
+			}
 			vf_stat("loop_laps_verified", got);
 			if (got == 0) {
 				vf_stat("loop_died_before_first_lap", 1);
@@ -1760,16 +2182,320 @@ oneway_case(long idx, vf_rng *r)
 	vf_pt_off();
 }
 
+// A cycle made of devices only (nothing but library code re-arming itself):
+// b[i] dials a[(i+1) % n].  A raw requester on the side injects 1-8 messages
+// back to back into a[0]; a harness-owned raw REP/RESPONDENT socket "counter"
+// hangs off b[x] as a second pipe and never answers.
+//   survey: raw SURVEYOR sends every message to all its pipes, so the counter
+//           gets one copy per pass of b[x]; optionally one link of the cycle
+//           is doubled (two pipes b[y] -> a[y+1]): every pass doubles the
+//           number of circulating copies, bounded only by the MAXTTLs.
+//   reqrep: raw REQ gives every message to one pipe: a message leaves the
+//           cycle through the counter or goes on, so it is seen at most once.
+// Model: arrival word count at a[i] in lap L is w0 + i + n*L; accepted iff
+// <= MAXTTL there.  Judged: the counter never sees more copies per lap than
+// the model allows (and exactly that many when so few copies exist that no
+// best-effort queue can overflow), each with a header of the length of its
+// lap ending in the injected header; afterwards the process is idle.
+#define PURE_MAXMSG 8
+#define PURE_MAXLAP 16
+typedef struct {
+	int        fam, n, x, dbl, nmsg;
+	nng_socket cnt;
+	long       idx;
+	int        w0[PURE_MAXMSG];
+	uint8_t    ihdr[PURE_MAXMSG][HDRCAP];
+	size_t     ihlen[PURE_MAXMSG], ilen[PURE_MAXMSG];
+	int        mult[PURE_MAXMSG][PURE_MAXLAP];
+	int        count[PURE_MAXMSG][PURE_MAXLAP];
+	int        total;
+	bool       flagged;
+	pthread_mutex_t mtx;
+	char       ctx[80];
+} pure;
+
+static void *
+pure_counter_main(void *arg)
+{
+	pure *pu = arg;
+	for (;;) {
+		nng_msg *m = NULL;
+		int      rv = nng_recvmsg(pu->cnt, &m, 0);
+		if (rv == NNG_ETIMEDOUT) {
+			continue;
+		}
+		if (rv != 0) {
+			break;
+		}
+		const uint8_t *h  = nng_msg_header(m);
+		size_t         hl = nng_msg_header_len(m);
+		uint32_t       tag = 0;
+		uint64_t       seq = 0;
+		pthread_mutex_lock(&pu->mtx);
+		int k = -1;
+		if (vf_body_check(nng_msg_body(m), nng_msg_len(m), &tag, &seq) == 0 && seq == (uint64_t) pu->idx && tag >= 0x200u && tag < 0x200u + (uint32_t) pu->nmsg) {
+			k = (int) (tag - 0x200u);
+		}
+		if (k < 0 || nng_msg_len(m) != pu->ilen[k]) {
+			if (!pu->flagged) {
+				vf_violation("C13/body-changed", "%s: the counter received a %zu-byte message that is not one of the injected ones", pu->ctx, nng_msg_len(m));
+			}
+			pu->flagged = true;
+		} else {
+			// header: own pipe id + (w0 + x + n*L + 1) words
+			int words = (int) (hl / 4) - 2 - pu->w0[k] - pu->x;
+			int L     = words >= 0 && words % pu->n == 0 ? words / pu->n : -1;
+			if ((hl & 3) || L < 0 || !bt_shape_ok(h, hl) || memcmp(h + hl - pu->ihlen[k], pu->ihdr[k], pu->ihlen[k]) != 0) {
+				if (!pu->flagged) {
+					vf_violation("C13/backtrace-growth", "%s: message %d reaches the counter with a %zu-byte header; expected 4*(2 + %d + %d + %d*lap) bytes ending in the injected %zu bytes, only the last word with the high bit", pu->ctx, k, hl, pu->w0[k], pu->x, pu->n, pu->ihlen[k]);
+				}
+				pu->flagged = true;
+			} else if (L >= PURE_MAXLAP || pu->count[k][L] + 1 > pu->mult[k][L]) {
+				if (!pu->flagged) {
+					vf_violation("C13/loop-exceeds-ttl", "%s: message %d (injected with %d words) reached the counter in lap %d %d times, the MAXTTLs of the cycle allow %d", pu->ctx, k, pu->w0[k], L, L < PURE_MAXLAP ? pu->count[k][L] + 1 : 1, L < PURE_MAXLAP ? pu->mult[k][L] : 0);
+				}
+				pu->flagged = true;
+				if (L < PURE_MAXLAP) {
+					pu->count[k][L]++;
+				}
+			} else {
+				pu->count[k][L]++;
+				pu->total++;
+			}
+		}
+		pthread_mutex_unlock(&pu->mtx);
+		nng_msg_free(m);
+	}
+	return NULL;
+}
+
+static void
+pure_case(long idx, vf_rng *r)
+{
+	pure      *pu = calloc(1, sizeof(*pu));
+	nng_socket a[RING_MAXDEV], b[RING_MAXDEV], inj;
+	pcount    *pca[RING_MAXDEV], *pcb[RING_MAXDEV], *pci, *pcc;
+	int        ttl_a[RING_MAXDEV], ttl_cnt = 15;
+	devh       dev[RING_MAXDEV];
+	char       durl[RING_MAXDEV][128], curl[128];
+	pthread_t  th;
+	int        pert, fam = (int) vf_below(r, 3) == 0 ? 0 : 1; // survey 2/3
+	static const char *fname[2] = { "reqrep", "survey" };
+
+	pu->fam  = fam;
+	pu->idx  = idx;
+	pu->n    = (int) vf_range(r, 1, RING_MAXDEV);
+	pu->x    = (int) vf_below(r, (uint32_t) pu->n);
+	pu->dbl  = fam == 1 && vf_chance(r, 1, 2) ? (int) vf_below(r, (uint32_t) pu->n) : -1;
+	pu->nmsg = vf_chance(r, 1, 3) ? (int) vf_range(r, 1, 2) : (int) vf_range(r, 1, PURE_MAXMSG);
+	bool uniform = vf_chance(r, 1, 2);
+	int  T       = (int) vf_range(r, 1, 15);
+	for (int i = 0; i < pu->n; i++) {
+		ttl_a[i] = uniform ? T : (int) vf_range(r, 1, 15);
+	}
+	// model
+	bool small = vf_chance(r, 2, 5); // aim at a case where counts are exact
+	int  expect_total, live_max;
+	for (int k = 0; k < PURE_MAXMSG; k++) {
+		pu->w0[k] = vf_chance(r, 1, 2) ? 1 : (int) vf_range(r, 1, 6);
+	}
+	if (small) {
+		pu->nmsg = (int) vf_range(r, 1, 3);
+	}
+	for (;;) {
+		expect_total = 0;
+		live_max     = 0;
+		for (int k = 0; k < pu->nmsg; k++) {
+			int w = pu->w0[k], i = 0, m = 1, lap = 0;
+			memset(pu->mult[k], 0, sizeof(pu->mult[k]));
+			while (w <= ttl_a[i]) {
+				if (i == pu->x && w + 1 <= ttl_cnt && lap < PURE_MAXLAP) {
+					pu->mult[k][lap] = m;
+					expect_total += m;
+				}
+				if (i == pu->dbl) {
+					m *= 2;
+				}
+				i = (i + 1) % pu->n;
+				lap += i == 0;
+				w++;
+			}
+			live_max += m;
+		}
+		if (small && (expect_total > 16 || live_max > 16)) {
+			// shorten the life of the messages
+			int hi = 0;
+			for (int i = 1; i < pu->n; i++) {
+				hi = ttl_a[i] > ttl_a[hi] ? i : hi;
+			}
+			if (ttl_a[hi] > 1) {
+				ttl_a[hi]--;
+				continue;
+			}
+		}
+		if (pu->dbl < 0 || (expect_total <= 400 && live_max <= 400)) {
+			break;
+		}
+		pu->dbl = -1; // too much amplification for a quick case
+	}
+	// so few copies that no best-effort queue (16 per raw SURVEYOR pipe) can
+	// overflow: then nothing may be missing either
+	bool exact = fam == 1 && expect_total <= 16 && live_max <= 16;
+	snprintf(pu->ctx, sizeof(pu->ctx), "pure cycle %s n=%d counter@%d doubled=%d msgs=%d", fname[fam], pu->n, pu->x, pu->dbl, pu->nmsg);
+	vf_case_begin(idx, "loop fam=pure-%s devices=%d counter=%d doubled=%d msgs=%d uniform=%d T=%d expect=%d exact=%d", fname[fam], pu->n, pu->x, pu->dbl, pu->nmsg, uniform, T, expect_total, exact);
+	vf_watchdog(120);
+	set_pert(r, &pert);
+	pthread_mutex_init(&pu->mtx, NULL);
+
+	for (int i = 0; i < pu->n; i++) {
+		a[i] = sk_open(fams[fam].rep_raw, ttl_a[i], &pca[i]);
+		b[i] = sk_open(fams[fam].req_raw, (int) vf_range(r, 1, 15), &pcb[i]);
+		sk_listen(a[i], pick_tran(r), durl[i], sizeof(durl[i]));
+	}
+	pu->cnt = sk_open(fams[fam].rep_raw, ttl_cnt, &pcc);
+	inj     = sk_open(fams[fam].req_raw, 15, &pci);
+	sk_listen(pu->cnt, pick_tran(r), curl, sizeof(curl));
+	for (int i = 0; i < pu->n; i++) {
+		sk_dial(b[i], durl[(i + 1) % pu->n]);
+		if (i == pu->dbl) {
+			sk_dial(b[i], durl[(i + 1) % pu->n]);
+		}
+		if (i == pu->x) {
+			sk_dial(b[i], curl);
+		}
+	}
+	sk_dial(inj, durl[0]);
+	for (int i = 0; i < pu->n; i++) {
+		int prev = (i + pu->n - 1) % pu->n;
+		pc_wait(pca[i], 1 + (prev == pu->dbl) + (i == 0), "pure a");
+		pc_wait(pcb[i], 1 + (i == pu->dbl) + (i == pu->x), "pure b");
+	}
+	pc_wait(pcc, 1, "pure counter");
+	pc_wait(pci, 1, "pure injector");
+	pthread_create(&th, NULL, pure_counter_main, pu);
+	for (int i = 0; i < pu->n; i++) {
+		if (vf_chance(r, 1, 2)) {
+			dev_start(&dev[i], a[i], b[i]);
+		} else {
+			dev_start(&dev[i], b[i], a[i]);
+		}
+	}
+	// inject back to back
+	for (int k = 0; k < pu->nmsg; k++) {
+		nng_msg *m;
+		size_t   sz = VF_BODY_MIN + vf_below(r, 200);
+		int      rv;
+		if (nng_msg_alloc(&m, sz) != 0) {
+			vf_harness_fail("alloc");
+		}
+		vf_body_make(nng_msg_body(m), sz, 0x200u + (uint32_t) k, (uint64_t) idx);
+		for (int w = 0; w < pu->w0[k] - 1; w++) {
+			nng_msg_header_append_u32(m, (uint32_t) vf_rand(r) & 0x7fffffffu);
+		}
+		nng_msg_header_append_u32(m, 0x80000000u | (uint32_t) vf_rand(r));
+		pthread_mutex_lock(&pu->mtx);
+		pu->ilen[k]  = sz;
+		pu->ihlen[k] = nng_msg_header_len(m);
+		memcpy(pu->ihdr[k], nng_msg_header(m), pu->ihlen[k]);
+		pthread_mutex_unlock(&pu->mtx);
+		if ((rv = nng_sendmsg(inj, m, 0)) != 0) {
+			nng_msg_free(m);
+			vf_harness_fail("pure cycle inject: %s", nng_strerror(rv));
+		}
+	}
+	uint64_t end = vf_now_ns() + (uint64_t) LONG_MS * 1000000ULL;
+	for (;;) {
+		pthread_mutex_lock(&pu->mtx);
+		int  tot = pu->total;
+		bool fl  = pu->flagged;
+		pthread_mutex_unlock(&pu->mtx);
+		if (!exact || fl || tot >= expect_total || vf_now_ns() > end) {
+			break;
+		}
+		vf_usleep(300);
+	}
+	vf_quiesce(3, 3000);
+	vf_msleep(15);
+	vf_quiesce(3, 3000);
+	pthread_mutex_lock(&pu->mtx);
+	int  tot = pu->total, most = 0;
+	bool fl  = pu->flagged;
+	for (int k = 0; k < pu->nmsg && !fl; k++) {
+		int seen = 0;
+		for (int L = 0; L < PURE_MAXLAP; L++) {
+			seen += pu->count[k][L];
+			if (pu->count[k][L] > most) {
+				most = pu->count[k][L];
+			}
+			if (exact && pu->count[k][L] < pu->mult[k][L]) {
+				vf_violation("C13/loop-within-ttl-lost", "%s: message %d (injected with %d words) reached the counter %d times in lap %d, expected %d: at most %d copies exist at any time, no queue can have been full", pu->ctx, k, pu->w0[k], pu->count[k][L], L, pu->mult[k][L], live_max);
+				fl = true;
+				break;
+			}
+		}
+		if (fam == 0 && seen > 1) {
+			vf_violation("C13/loop-exceeds-ttl", "%s: message %d left the cycle through the counter %d times; a raw REQ socket gives a message to one pipe only", pu->ctx, k, seen);
+			fl = true;
+		}
+	}
+	pthread_mutex_unlock(&pu->mtx);
+	{
+		nng_msg *g = NULL;
+		nng_socket_set_ms(inj, NNG_OPT_RECVTIMEO, 15);
+		if (nng_recvmsg(inj, &g, 0) == 0) {
+			vf_violation("C13/loop-spurious-reply", "%s: the injecting raw requester received a message although nobody replies", pu->ctx);
+			nng_msg_free(g);
+			fl = true;
+		}
+	}
+	idle_check(pu->ctx);
+	if (!fl) {
+		vf_stat("loop_pure_cycles", 1);
+		vf_stat("loop_pure_messages_injected", pu->nmsg);
+		vf_stat("loop_fanout_copies_verified", tot);
+		if (fam == 1) {
+			vf_stat("loop_pure_survey_copies_model", expect_total);
+			vf_stat("loop_pure_survey_copies_seen", tot);
+		}
+		if (exact && expect_total > 0) {
+			vf_stat("loop_pure_exact_cases", 1);
+			vf_stat("loop_pure_exact_copies", tot);
+		}
+		if (pu->dbl >= 0 && most > 1) {
+			vf_stat("loop_pure_amplified_cases", 1);
+			if (exact) {
+				vf_stat("loop_pure_amplified_exact_cases", 1);
+			}
+		}
+		vf_stat_max("max_copies_of_one_message_in_one_lap", most);
+	}
+	vf_class("loop/pure-%s/n=%d/x=%d/dbl=%d/msgs=%d/%s/copies=%d", fname[fam], pu->n, pu->x, pu->dbl >= 0, pu->nmsg > 1 ? (pu->nmsg > 4 ? 8 : 4) : 1, exact ? "exact" : "bound", tot > 16 ? (tot > 64 ? 65 : 17) : tot);
+	if ((idx & 7) == 5) {
+		vf_sample("{\"mode\":\"loop\",\"family\":\"pure-%s\",\"devices\":%d,\"counter_at\":%d,\"doubled_link\":%d,\"messages\":%d,\"ttl\":[%d,%d,%d],\"copies_at_counter\":%d,\"model\":%d,\"exact\":%d}", fname[fam], pu->n, pu->x, pu->dbl, pu->nmsg, ttl_a[0], pu->n > 1 ? ttl_a[1] : 0, pu->n > 2 ? ttl_a[2] : 0, tot, expect_total, exact);
+	}
+	for (int i = 0; i < pu->n; i++) {
+		dev_stop(&dev[i], pu->ctx);
+	}
+	nng_socket_close(inj);
+	nng_socket_close(pu->cnt);
+	pthread_join(th, NULL);
+	vf_pt_off();
+	pthread_mutex_destroy(&pu->mtx);
+	free(pu);
+}
+
 static void
 loop_case(long idx)
 {
 	vf_rng r;
 	vf_rng_seed(&r, vf_seed, (uint64_t) idx);
-	int which = (int) (idx % 5);
+	int which = (int) (idx % 6);
 	if (which == 3) {
 		bus_case(idx, &r);
 	} else if (which == 4) {
 		oneway_case(idx, &r);
+	} else if (which == 5) {
+		pure_case(idx, &r);
 	} else {
 		ring_case(idx, &r, which);
 	}
@@ -1960,13 +2686,14 @@ sentinel_make(frame *f, uint32_t n)
 
 typedef struct {
 	const family *f;
-	bool          dev;     // a device between the raw peer and the replier
+	int           ndev;    // devices between the raw peer and the replier (0..3)
 	bool          rep_raw; // harness-served raw replier
-	int           ttl_f, ttl_rep;
+	int           ttl[4];  // MAXTTL of the receiving sockets in path order; ttl[ndev] is the replier's
 	uint16_t      port;
 	replier       rp;
 	int           fd;
 	int           seen; // replier arrivals accounted for
+	bool          lost; // a reply was lost (reported): end the case
 	char          ctx[96];
 } rawcase;
 
@@ -2002,7 +2729,7 @@ raw_check_arrival(rawcase *rc, const frame *f, int e, const char *what)
 		return false;
 	}
 	if (rc->rep_raw) {
-		size_t extra = rc->dev ? 8 : 4;
+		size_t extra = (size_t) (rc->ndev + 1) * 4;
 		if (a.hlen != extra + (size_t) e * 4 || memcmp(a.hdr + extra, f->buf, (size_t) e * 4) != 0 || !bt_shape_ok(a.hdr, a.hlen)) {
 			vf_violation("C13/malformed-delivered", "%s: after %s the raw replier saw a %zu-byte header, expected %zu new bytes followed by the %d words sent", rc->ctx, what, a.hlen, extra, e);
 			return false;
@@ -2018,6 +2745,8 @@ raw_check_reply(rawcase *rc, const frame *f, const char *what)
 	long    n = peer_recv(rc->fd, buf, sizeof(buf), LONG_MS);
 	if (n < 0) {
 		vf_violation("C13/reply-lost", "%s: %s was delivered but no reply came back to the raw peer (%s)", rc->ctx, what, n == -1 ? "timeout" : "disconnected");
+		atomic_fetch_add(&reply_lost_reports, 1);
+		rc->lost = true;
 		if (n == -2) {
 			close(rc->fd);
 			rc->fd = raw_connect(rc);
@@ -2035,54 +2764,74 @@ static void
 rawreq_case(long idx, vf_rng *r)
 {
 	rawcase   *rc = calloc(1, sizeof(*rc));
-	nng_socket front = NNG_SOCKET_INITIALIZER, back = NNG_SOCKET_INITIALIZER, reps;
-	pcount    *pcf = NULL, *pcb = NULL, *pcr = NULL;
-	devh       dev;
-	char       durl[128], durl2[128];
+	nng_socket front[3], back[3], reps;
+	pcount    *pcf[3], *pcb[3], *pcr = NULL;
+	devh       dev[3];
+	char       durl[4][128];
 	int        pert, nframes;
 	uint32_t   nsent = 0;
 
 	rc->f       = &fams[vf_below(r, 2)];
-	rc->dev     = vf_chance(r, 1, 2);
+	rc->ndev    = (int) vf_below(r, 4);
 	rc->rep_raw = vf_chance(r, 1, 2);
-	rc->ttl_f   = (int) vf_range(r, 1, 15);
-	rc->ttl_rep = (int) vf_range(r, rc->dev ? 2 : 1, 15);
-	if (vf_chance(r, 1, 4)) {
-		rc->ttl_f = 15;
-		rc->ttl_rep = 15;
+	// the well-formed one-word sentinel must get through: MAXTTL >= position
+	for (int i = 0; i <= rc->ndev; i++) {
+		rc->ttl[i] = (int) vf_range(r, (uint32_t) i + 1, 15);
 	}
-	snprintf(rc->ctx, sizeof(rc->ctx), "rawpeer->%s%s%s ttl=%d/%d", rc->dev ? "device->" : "", rc->rep_raw ? "raw-" : "", rc->f->name, rc->dev ? rc->ttl_f : 0, rc->ttl_rep);
-	vf_case_begin(idx, "raw request-side fam=%s dev=%d rawrep=%d ttl_f=%d ttl_rep=%d", rc->f->name, rc->dev, rc->rep_raw, rc->ttl_f, rc->ttl_rep);
+	if (vf_chance(r, 1, 4)) {
+		for (int i = 0; i <= rc->ndev; i++) {
+			rc->ttl[i] = 15;
+		}
+	}
+	snprintf(rc->ctx, sizeof(rc->ctx), "rawpeer->%d device(s)->%s%s ttl=%d/%d/%d/%d", rc->ndev, rc->rep_raw ? "raw-" : "", rc->f->name, rc->ttl[0], rc->ndev > 0 ? rc->ttl[1] : 0, rc->ndev > 1 ? rc->ttl[2] : 0, rc->ndev > 2 ? rc->ttl[3] : 0);
+	vf_case_begin(idx, "raw request-side fam=%s dev=%d rawrep=%d ttl=%d/%d/%d/%d", rc->f->name, rc->ndev, rc->rep_raw, rc->ttl[0], rc->ndev > 0 ? rc->ttl[1] : 0, rc->ndev > 1 ? rc->ttl[2] : 0, rc->ndev > 2 ? rc->ttl[3] : 0);
 	vf_watchdog(180);
 	set_pert(r, &pert);
 
-	reps = sk_open(rc->rep_raw ? rc->f->rep_raw : rc->f->rep, rc->ttl_rep, &pcr);
-	if (rc->dev) {
-		front = sk_open(rc->f->rep_raw, rc->ttl_f, &pcf);
-		back  = sk_open(rc->f->req_raw, 15, &pcb);
-		sk_listen(front, VF_T_TCP, durl, sizeof(durl));
-		sk_listen(reps, vf_chance(r, 1, 4) ? VF_T_TCP : VF_T_INPROC, durl2, sizeof(durl2));
-		sk_dial(back, durl2);
-		pc_wait(pcb, 1, "raw: device back");
-		pc_wait(pcr, 1, "raw: replier");
-	} else {
-		sk_listen(reps, VF_T_TCP, durl, sizeof(durl));
+	// the raw peer talks tcp to the first receiving socket
+	reps = sk_open(rc->rep_raw ? rc->f->rep_raw : rc->f->rep, rc->ttl[rc->ndev], &pcr);
+	for (int i = 0; i < rc->ndev; i++) {
+		front[i] = sk_open(rc->f->rep_raw, rc->ttl[i], &pcf[i]);
+		back[i]  = sk_open(rc->f->req_raw, 15, &pcb[i]);
+		sk_listen(front[i], i == 0 ? VF_T_TCP : pick_tran(r), durl[i], sizeof(durl[i]));
 	}
-	rc->port = url_port(durl);
+	sk_listen(reps, rc->ndev == 0 ? VF_T_TCP : vf_chance(r, 1, 4) ? VF_T_TCP : VF_T_INPROC, durl[rc->ndev], sizeof(durl[rc->ndev]));
+	for (int i = 0; i < rc->ndev; i++) {
+		sk_dial(back[i], durl[i + 1]);
+	}
+	for (int i = 0; i < rc->ndev; i++) {
+		pc_wait(pcb[i], 1, "raw: device back");
+		if (i > 0) {
+			pc_wait(pcf[i], 1, "raw: device front");
+		}
+	}
+	if (rc->ndev > 0) {
+		pc_wait(pcr, 1, "raw: replier");
+	}
+	rc->port = url_port(durl[0]);
 	replier_start(&rc->rp, reps, rc->rep_raw);
-	if (rc->dev) {
-		dev_start(&dev, front, back);
+	for (int i = 0; i < rc->ndev; i++) {
+		if (vf_chance(r, 1, 2)) {
+			dev_start(&dev[i], front[i], back[i]);
+		} else {
+			dev_start(&dev[i], back[i], front[i]);
+		}
 	}
 	rc->fd = raw_connect(rc);
 
-	int ttl0 = rc->dev ? rc->ttl_f : rc->ttl_rep;
+	// the longest backtrace (words incl. the id) that gets through: socket i
+	// sees i more words than the peer sent
+	int ttl0 = rc->ttl[0], eff = 15;
+	for (int i = 0; i <= rc->ndev; i++) {
+		eff = rc->ttl[i] - i < eff ? rc->ttl[i] - i : eff;
+	}
 	nframes  = (int) vf_range(r, 10, 24);
-	for (int i = 0; i < nframes; i++) {
+	for (int i = 0; i < nframes && !rc->lost; i++) {
 		frame f, s;
 		int   e = 0, out;
 		char  what[96];
 		int fh = 0; // first word with the high bit anywhere in the frame
-		frame_make(r, &f, ttl0, 0x700u + (uint32_t) i, (uint64_t) idx);
+		frame_make(r, &f, vf_chance(r, 1, 2) ? ttl0 : eff, 0x700u + (uint32_t) i, (uint64_t) idx);
 		for (size_t o = 0; o + 4 <= f.len; o += 4) {
 			if (f.buf[o] & 0x80) {
 				fh = (int) (o / 4) + 1;
@@ -2090,8 +2839,12 @@ rawreq_case(long idx, vf_rng *r)
 			}
 		}
 		out = model_rep_side(f.buf, f.len, ttl0, &e);
-		if (out == OUT_DELIVER && rc->dev && e + 1 > rc->ttl_rep) {
-			out = OUT_DROP; // discarded by the replier behind the device
+		int dropper = 0; // the socket that must discard it
+		for (int j = 1; j <= rc->ndev && out == OUT_DELIVER; j++) {
+			if (e + j > rc->ttl[j]) {
+				out     = OUT_DROP; // well-formed for socket 0, discarded further down
+				dropper = j;
+			}
 		}
 		snprintf(what, sizeof(what), "a frame of %d words (term=%d pattern=%d payload=%d, first high bit at word %d)", f.nwords, f.term, f.pat, f.payload, fh);
 		if (vf_sp_send_frame(rc->fd, false, f.buf, f.len) != 0) {
@@ -2106,6 +2859,12 @@ rawreq_case(long idx, vf_rng *r)
 				vf_stat("raw_wellformed_delivered_verified", 1);
 				if (e == ttl0) {
 					vf_stat("raw_delivered_words_equal_ttl", 1);
+				}
+				if (e == eff && rc->ndev >= 2) {
+					vf_stat("raw_delivered_at_limit_through_2plus_devices", 1);
+				}
+				if (rc->ndev >= 2) {
+					vf_stat("raw_delivered_through_2plus_devices", 1);
 				}
 				if (e == 15) {
 					vf_stat("raw_delivered_header_at_capacity", 1);
@@ -2173,17 +2932,31 @@ rawreq_case(long idx, vf_rng *r)
 				} else if (fh == ttl0 + 1) {
 					vf_stat("raw_words_ttl_plus_one_dropped", 1);
 				}
+				if (dropper >= 1) {
+					vf_stat("raw_dropped_behind_first_device", 1);
+					if (dropper < rc->ndev) {
+						// by the front socket of a device that is fed by a device
+						vf_stat("raw_dropped_by_second_or_later_device", 1);
+					}
+					if (e + dropper > 15) {
+						// 16 words on the wire: header at capacity in the device before
+						vf_stat("raw_dropped_with_16_words_at_depth", 1);
+					}
+				}
+				if (out != OUT_DELIVER && rc->ndev >= 2) {
+					vf_stat("raw_bad_frames_not_delivered_through_2plus_devices", 1);
+				}
 			}
 			obs = disc ? "disconnected" : "dropped";
 		}
-		vf_class("raw/%s/%s/%s/n=%d/term=%d/pat=%d/pay=%d/%s", rc->f->name, rc->dev ? "device" : "direct", rc->rep_raw ? "rawrep" : "cooked", f.nwords, f.term, f.pat, f.payload, obs);
+		vf_class("raw/%s/dev%d/%s/n=%d/term=%d/pat=%d/pay=%d/%s", rc->f->name, rc->ndev, rc->rep_raw ? "rawrep" : "cooked", f.nwords, f.term, f.pat, f.payload, obs);
 		if (i == 0 && (idx & 7) == 0) {
 			vf_sample("{\"mode\":\"raw\",\"path\":\"%s\",\"words\":%d,\"terminated\":%d,\"pattern\":%d,\"payload\":%d,\"first_high_bit_word\":%d,\"model\":\"%s\",\"observed\":\"%s\"}", rc->ctx, f.nwords, f.term, f.pat, f.payload, fh, outname[out], obs);
 		}
 	}
 	close(rc->fd);
-	if (rc->dev) {
-		dev_stop(&dev, rc->ctx);
+	for (int i = 0; i < rc->ndev; i++) {
+		dev_stop(&dev[i], rc->ctx);
 	}
 	replier_stop(&rc->rp);
 	replier_free(&rc->rp);
@@ -2231,7 +3004,8 @@ rawrep_case(long idx, vf_rng *r)
 	dev_start(&dev, front, back);
 
 	nframes = (int) vf_range(r, 8, 20);
-	int extra_last = 0;
+	int  extra_last   = 0;
+	bool kick_pending = false; // a malformed reply was written to the current connection
 	for (int i = 0; i <= nframes; i++) {
 		// a request so that the peer learns the routing word of the requester
 		nng_msg *m, *g = NULL;
@@ -2271,6 +3045,7 @@ rawrep_case(long idx, vf_rng *r)
 					break;
 				}
 				vf_stat("raw_disconnects_observed", 1);
+				kick_pending = false;
 				for (int w = 0; w < 10000 && atomic_load(&pcb->n) < 1; w++) {
 					vf_msleep(1);
 				}
@@ -2321,8 +3096,22 @@ rawrep_case(long idx, vf_rng *r)
 		out      = model_req_side(f.buf, f.len, &e);
 		route_ok = out == OUT_DELIVER && e >= 2 && get32(f.buf) == P;
 		if (vf_sp_send_frame(fd, false, f.buf, f.len) != 0) {
-			vf_harness_fail("rawrep: write failed on a live connection");
+			// A malformed reply sent earlier on this connection makes the
+			// device disconnect us whenever it gets to read it - under load
+			// that can be after we have received the next request.  The
+			// next round finds the connection closed and waits for the
+			// dialer to come back.
+			if (!kick_pending) {
+				vf_harness_fail("rawrep: write failed on a connection on which nothing malformed was sent");
+			}
+			vf_stat("raw_reply_write_failed_on_kicked_connection", 1);
+			if (last && extra_last < 3) {
+				extra_last++;
+				nframes++;
+			}
+			continue;
 		}
+		kick_pending |= out == OUT_KICK;
 		vf_stat("raw_frames_sent", 1);
 		nng_socket_set_ms(rq, NNG_OPT_RECVTIMEO, route_ok ? LONG_MS : 60);
 		rv = nng_recvmsg(rq, &g, 0);
@@ -2347,6 +3136,8 @@ rawrep_case(long idx, vf_rng *r)
 					dump_sock_stats(back);
 					dump_sock_stats(front);
 					vf_violation("C13/reply-lost", "%s: a well-formed reply with %d words (first = the requester's routing word) was not delivered although the connection stayed open: %s", ctx, e, nng_strerror(rv));
+					atomic_fetch_add(&reply_lost_reports, 1);
+					nframes = i; // reported; end the case
 				}
 			} else if (nng_msg_header_len(g) != hl || memcmp(nng_msg_header(g), f.buf + 4, hl) != 0 || nng_msg_len(g) != bl || memcmp(nng_msg_body(g), f.buf + (size_t) e * 4, bl) != 0) {
 				vf_violation("C13/backtrace-unwind", "%s: reply with %d words: the requester got header %zu / body %zu bytes, expected %zu / %zu with the first word popped", ctx, e, nng_msg_header_len(g), nng_msg_len(g), hl, bl);
@@ -2716,6 +3507,10 @@ main(int argc, char **argv)
 	vf_nng_init(4, 2, 2);
 	for (long idx = 0; idx < vf_cases; idx++) {
 		if (!vf_want_case(idx)) {
+			continue;
+		}
+		if (atomic_load(&reply_lost_reports) >= 2) {
+			vf_stat("cases_skipped_after_repeated_reply_loss", 1);
 			continue;
 		}
 		if (!strcmp(vf_mode, "chain")) {
